@@ -212,6 +212,20 @@ let run_fulldec toks =
     hex_of_bytes (fulldec_read n (z_of_hex off) (z_of_hex size))
   | _ -> failwith "fulldec args"
 
+(* fulldeca: the same with the length of the file as the bound (the header may declare more than the file holds): raw = the file
+   from the start of the container  ->  bytes | units walked over *)
+let run_fulldeca toks =
+  match toks with
+  | [content; raw; r1; r2; r3; r4; r5; r6; off; size] ->
+    let reg t = match String.split_on_char ',' t with
+      | [o; s; p] -> { r_off = z_of_hex o; r_size = z_of_hex s; r_plain = bytes_of_hex p } | _ -> failwith "region" in
+    let rawb = bytes_of_hex raw in
+    let n = { n_romfs = reg r1; n_exefs = reg r2; n_header = reg r3; n_ext = reg r4; n_logo = reg r5; n_plain = reg r6;
+              n_content = z_of_hex content; n_raw = rawb } in
+    let avail = z_of_int (Stdlib.List.length rawb) in
+    hex_of_bytes (fulldec_read_avail n avail (z_of_hex off) (z_of_hex size)) ^ " " ^ hex_of_z (fulldec_units (z_of_hex content) avail (z_of_hex off) (z_of_hex size))
+  | _ -> failwith "fulldeca args"
+
 (* romfs <dirmeta> <filemeta>  ->  tree dump | e:Err *)
 let rec show_node (n : node) : string =
   match n with
@@ -505,6 +519,7 @@ let dispatch (line : string) : string =
   | "tmdrt" :: toks -> run_tmdrt toks
   | "ranges" :: toks -> run_ranges toks
   | "fulldec" :: toks -> run_fulldec toks
+  | "fulldeca" :: toks -> run_fulldeca toks
   | "romfs" :: toks -> run_romfs toks
   | "romfspath" :: toks -> run_romfspath toks
   | "ncsd" :: toks -> run_ncsd toks
